@@ -594,6 +594,7 @@ func extractAccess(repo string) (string, error) {
 		return "", err
 	}
 	var all []accSite
+	var allFields []fieldInfo
 	var errs []string
 	dirs := make([]string, 0, len(accTargets))
 	for d := range accTargets {
@@ -641,6 +642,7 @@ func extractAccess(repo string) (string, error) {
 						continue
 					}
 					c.fields[f] = fieldInfo{tn, f.Name(), typeStr(f.Type(), pkg)}
+					allFields = append(allFields, c.fields[f])
 				}
 			}
 			findWrappers(c, files)
@@ -733,7 +735,14 @@ func extractAccess(repo string) (string, error) {
 		b.WriteString("sites_" + o)
 	}
 	b.WriteString("\n\n")
-	// declared fields (a field without any site is still listed, so that a new field cannot go unnoticed)
-	b.WriteString("def objects : List String := " + lst(objs) + "\n\nend Gen.Access\n")
+	// every declared field of the target structs (a new field cannot go unnoticed)
+	b.WriteString("def fields : List (String × String) := [")
+	for i, f := range allFields {
+		if i > 0 {
+			b.WriteString(", ")
+		}
+		fmt.Fprintf(&b, "(%q, %q)", f.obj, f.field)
+	}
+	b.WriteString("]\n\nend Gen.Access\n")
 	return b.String(), nil
 }
